@@ -315,8 +315,37 @@ def _pool_chunk(cases):
     return [record_case(c) for c in cases]
 
 
+def freeze_jit_off():
+    """JIT off for the whole package.  NUMBA_DISABLE_JIT=1 alone is not enough: uxarray/grid/area.py
+    executes `config.DISABLE_JIT = not ENABLE_JIT` at import and switches the JIT back on for every
+    module imported after it (dual.py among them).  The assignment is made a no-op here, before
+    uxarray is imported; /repo is not touched."""
+    import types
+
+    import numba.core.config as cfg
+
+    if not cfg.DISABLE_JIT:
+        raise RuntimeError("NUMBA_DISABLE_JIT=1 is not in effect")
+
+    class _Frozen(types.ModuleType):
+        def __setattr__(self, k, v):
+            if k == "DISABLE_JIT":
+                return
+            super().__setattr__(k, v)
+
+    cfg.__class__ = _Frozen
+
+
 def main(argv):
     src, dst = argv
+    freeze_jit_off()
+    from . import ux as hux
+
+    hux.import_ux()
+    from uxarray.grid import dual as _dual
+
+    if not isinstance(_dual.construct_faces, type(main)):
+        raise RuntimeError("JIT is still on for uxarray.grid.dual: %r" % type(_dual.construct_faces))
     with open(src) as fh:
         cases = json.load(fh)
     with open(dst + ".tmp", "w") as fh:
